@@ -16,7 +16,7 @@
 //!       `adv <ms>`      advance the clock and wait until futures-timer processed it
 //!       `poll`          one `Connection::poll`
 //!     impl: `<-|pending|event|closed|error:…> sh=<none|asap|later> ni=<negotiating_in> no=<negotiating_out>
-//!            rq=<requested_substreams> act=<0|1 counter has active streams>`
+//!            rq=<requested_substreams> act=<0|1 counter has active streams> held=<streams the handler holds, not ignored>`
 //! (B) callees: `compute <ka> <none|asap|later> <timeout_ms>` → `unchanged|none|asap|later`,
 //!     `counter <clones> <dropped>` → `idle=<0|1>`.
 use futures::{AsyncRead, AsyncWrite, FutureExt};
@@ -414,8 +414,9 @@ impl Rig {
             if self.remote_failed { " remote-negotiation-failed" } else { "" },
             if self.timer_stuck { " timer-stuck" } else { "" }
         );
+        let held = self.hs.lock().unwrap().held.len();
         let line = format!(
-            "{res} sh={} ni={} no={} rq={} act={}{extra}",
+            "{res} sh={} ni={} no={} rq={} act={} held={held}{extra}",
             match snap.shutdown {
                 Kind::None => "none",
                 Kind::Asap => "asap",
@@ -469,7 +470,7 @@ fn exec(out: &mut Out, rig: &mut Rig, op: &[String]) {
             *rig = Rig::new(parse_timeout(&op[1]), op[2].parse().unwrap());
             let snap = rig.conn.as_ref().unwrap().snapshot();
             format!(
-                "- sh={} ni={} no={} rq={} act={}",
+                "- sh={} ni={} no={} rq={} act={} held=0",
                 match snap.shutdown {
                     Kind::None => "none",
                     Kind::Asap => "asap",
